@@ -19,19 +19,22 @@ claimed = {
 
 claimed.update({
     "C02": dict(text="Merge algebra of PushRequest.Merge/CopyMerge (union of keys, forced OR, newest snapshot, oldest start, reason counts add, operands untouched/unshared) for every pair of "
-                     "requests inside the bound, and a bounded model check of the real PushQueue (Enqueue/Dequeue/MarkDone) with a ghost 'owed' state: one push in flight, nothing owed is lost, FIFO, shared request never mutated.",
-                note="Outside: gRPC stream loops; debounce/doSendPushes under schedules only where the evidence lists those harnesses.", ref="§4 C02"),
+                     "requests inside the bound, and a bounded model check of the real PushQueue (Enqueue/Dequeue/MarkDone) with a ghost 'owed' state: one push in flight, nothing owed is lost, FIFO, shared request never mutated; "
+                     "the real debounce() with senders, timers on a symbolic clock and asynchronous push completion under every schedule within the pre-emption bound: no update lost (a lost update is a deadlock), Forced survives, debounced pushes never overlap.",
+                note="Outside: gRPC stream loops, doSendPushes concurrency limiter, real-time debounce bounds.", ref="§4 C02"),
     "C10": dict(text="Real snapshot construction (initAuthenticationPolicies), selection (getConfigsForWorkload) and ComposePeerAuthentication compared with the documented precedence "
                      "(port > workload > namespace > mesh, oldest wins, ties by name, UNSET inherits, default PERMISSIVE) for every policy set inside the bound, every insertion order, symbolic creation times incl. ties; "
-                     "client-side namespace mode agrees with the server side.",
+                     "client-side namespace mode agrees with the server side, also after an incremental snapshot update (SidecarScope.AuthnPolicies vs PushContext.AuthnPolicies, shared kernel with C01).",
                 note="Outside: filter-chain assembly, ambient conversion, passthrough inference.", ref="§4 C10"),
     "C11": dict(text="xDS identity check (authorize/checkConnectionIdentity/ParseIdentity) against the SPIFFE grammar for every presented identity string within the length bound; "
                      "SDS gate: for every resource name (scheme menu + symbolic suffix), identity, RBAC answer, verified-reference set and cache state, key material is fetched only for the verified namespace and an authorised caller "
                      "(or a verified gateway reference), Authorize is asked only about the verified identity, and every cache lookup happens after the gate.",
                 note="Outside: SubjectAccessReview back end, TLS peer extraction.", ref="§4 C11"),
     "C01": dict(text="Decision layer only: the real cds/eds/lds/rdsNeedsPush are monotone under request merging (batching never loses a push a constituent change required) for every pair of requests "
-                     "(every config kind, symbolic names, every trigger reason, sidecar/router/waypoint), and a forced request pushes every type and is never filtered.",
-                note="Outside (stated): equality of resources that are not resent, end-to-end stream convergence (needs generator read-sets).", ref="§4 C01"),
+                     "(every config kind, symbolic names, every trigger reason, sidecar/router/waypoint), and a forced request pushes every type and is never filtered; "
+                     "snapshot layer: PushContext.updateContext (incremental) gives the same answers as createNewContext (fresh) on the same store for every single changed object of every kind it classifies (thorough: two successive changes), "
+                     "observed through the accessors generators read (sidecar scope services/DRs/VSs/authn, authz, EnvoyFilters, telemetry, proxy config, gateways).",
+                note="Outside (stated): equality of resources that are not resent, end-to-end stream convergence (needs generator read-sets), Gateway API/ambient/WasmPlugin indexes.", ref="§4 C01"),
     "C03": dict(text="One server-initiated delta push (pushDeltaXds/sendDelta) from an arbitrary bookkeeping state with an arbitrary generator output: the reference delta client ends up holding exactly what the reference SotW client holds, "
                      "everything that ceased to exist is removed, nothing just sent is removed, ECDS never carries removals, removed names sorted, record/nonce updated only on a successful send; delta-aware generators: record follows the delta.",
                 note="Outside: equivalence of delta-aware generators (cluster builder, workload generator) with their SotW counterparts.", ref="§4 C03"),
@@ -61,12 +64,14 @@ claimed.update({
 
 claimed.update({
     "C12": dict(text="Differential check for every request: the Envoy routes generated by BuildHTTPRoutesForVirtualService/TranslateRoute/TranslateRouteMatch are evaluated by a reference Envoy route matcher and compared with a reference reading of the VirtualService "
-                     "(first rule whose match holds; uri exact/prefix/regex, headers, withoutHeaders, queryParams, method, authority, port, sourceLabels, gateways; catch-all truncation; SortVHostRoutes), with symbolic literals and a symbolic request.",
-                note="Outside: destinations/weights/cluster names, retries/timeouts/mirrors/fault/CORS, TLS/TCP routes, delegates, vhost domains, ignoreUriCase; regexes other than '.*'/'*' are an uninterpreted predicate.", ref="§4 C12"),
+                     "(first rule whose match holds; uri exact/prefix/regex incl. ignoreUriCase, headers, withoutHeaders, queryParams, method, authority, port, sourceLabels, gateways; catch-all truncation; SortVHostRoutes), with symbolic literals and a symbolic request.",
+                note="Outside: destinations/weights/cluster names, retries/timeouts/mirrors/fault/CORS, TLS/TCP routes, delegates, vhost domains; regexes other than '.*'/'*' are an uninterpreted predicate.", ref="§4 C12"),
     "C20": dict(text="The real IptablesConfigurator.Run + rule builder are executed for every configuration of a menu; the resulting rule vectors are evaluated by a reference netfilter interpreter on a fully symbolic IPv4 packet "
                      "(protocol, 32-bit addresses, port, interfaces, owner uid/gid) and compared with the capture policy of the statement: no redirect loop for proxy-owned traffic, application outbound TCP captured iff included and not excluded "
-                     "(ranges, ports, interfaces, loopback), inbound TCP captured iff port included/not excluded/not the tunnel port, app loopback traffic left alone.",
-                note="Outside: TPROXY/mangle, DNS capture, IPv6 parity (unless listed in the evidence), nftables, CNI in-pod rules, conntrack state, kernel semantics beyond the modelled matches.", ref="§4 C20"),
+                     "(ranges, ports, interfaces, loopback), inbound TCP captured iff port included/not excluded/not the tunnel port, app loopback traffic left alone. "
+                     "IPv4/IPv6 parity: for dual-stack configurations with paired address options the IPv4 and the IPv6 rule sets give corresponding symbolic packets the same verdict (OUTPUT and PREROUTING). "
+                     "DNS capture (nat): application DNS goes to the agent's DNS port iff addressed to a captured server, the proxy's own DNS never does, and all other traffic is decided exactly as without DNS capture.",
+                note="Outside: TPROXY/mangle, raw-table conntrack zones, IPv6 DNS servers, IPv6 options without IPv4 counterpart, nftables, CNI in-pod rules, conntrack state, kernel semantics beyond the modelled matches.", ref="§4 C20"),
 })
 
 claimed.update({
